@@ -20,7 +20,7 @@ TReset == /\ E.ev = "reset"
 TStep == /\ E.ev = "step"
          /\ \/ (E.a = "WInsert" /\ WInsert) \/ (E.a = "WPublish" /\ WPublish) \/ (E.a = "Rotate" /\ Rotate)
             \/ (E.a = "FBuild" /\ FBuild) \/ (E.a = "F1" /\ F1) \/ (E.a = "F2" /\ F2)
-            \/ (E.a = "R1" /\ R1) \/ (E.a = "R2" /\ R2) \/ (E.a = "R3" /\ R3)
+            \/ (E.a = "R1" /\ R1) \/ (E.a = "R2" /\ R2) \/ (E.a = "R3" /\ R3) \/ (E.a = "Compact" /\ Compact)
 
 \* the real reader's answer under the forced schedule
 TAnswer == /\ E.ev = "answer"
